@@ -17,6 +17,7 @@ The harness makes the implementation quiescent before every operation other than
 under the configuration of the moment of its collect (`CfgWhenQuiet`).
 -/
 import Kap.Spec.C09Async
+import Kap.Model.C09AsyncCap
 open Kap Kap.C09 Kap.C09.Svc Kap.C09.Async Kap.C09.AsyncSpec
 
 namespace Kap.C09.AsyncDrv
@@ -33,6 +34,10 @@ structure Book where
   regs : List (String × String × Nat) := []
   /-- observed logs seen so far at the `final` lines: (recorder, topic, log) -/
   finals : List (String × String × List SEv) := []
+  /-- queue capacity of the service the case runs on (`scap`) -/
+  cap : Option Nat := none
+  /-- gated recorders (topic, name): they hold one event inside `Handle`, their queue then fills up -/
+  gates : List (String × String) := []
 
 def parseObs (tok : String) : Option (List SEv) :=
   if tok == "-" then some [] else
@@ -65,7 +70,11 @@ def judgeFinal (b : Book) (ord : List String) (n T : String) (obs : List SEv) : 
       throw ("no-cross-topic-delivery", s!"recorder {esc n} is not registered on {esc T} but received {obs.length} event(s)")
     return {}
   | some (_, _, since) =>
+    let gated := b.gates.contains (T, n)
     let mut out : Out := {}
+    -- a gated handler accepts one event (held inside Handle) plus a full queue; what arrives while its OWN queue is
+    -- full is not queued for it (non-blocking delivery) - and for nobody else this is an excuse
+    let mut room : Nat := match b.cap with | some c => c + 1 | none => 0
     let mut exact := true
     let mut streams : List (List Key × List Int) := []
     for e in obs do
@@ -77,6 +86,21 @@ def judgeFinal (b : Book) (ord : List String) (n T : String) (obs : List SEv) : 
       let hi := chains.length
       let copies := obs.filter (fun e => e.time == c.ev.time)
       let k := copies.length
+      if gated && b.cap.isSome then
+        if k > hi then
+          throw ("no-duplication-per-chain", s!"gated recorder {esc n} topic {esc T}: {k} copies of the event collected at time {c.ev.time}, at most {hi} chain(s)")
+        if lo == hi then
+          let want := Nat.min lo room
+          if k != want then
+            throw ("handler-gets-all-but-own-overflow", s!"gated recorder {esc n} topic {esc T}: with {room} place(s) left (one event held, queue capacity {b.cap.getD 0}) it must get {want} of the {lo} cop(ies) of the event collected at time {c.ev.time}, got {k}")
+          if want < lo then out := { out with br := if out.br.contains "overflow" then out.br else "overflow" :: out.br, nt := true }
+          room := room - want
+        else
+          exact := false
+          room := room - Nat.min k room
+        if copies.any (fun e => e.id != c.ev.id || e.level != c.ev.level) then
+          throw ("event-content", s!"recorder {esc n} topic {esc T}: a copy of the event collected at time {c.ev.time} does not carry its id/level")
+        continue
       if k < lo then
         throw ("no-loss-per-chain", s!"recorder {esc n} topic {esc T}: the event collected at time {c.ev.time} on {esc c.topic} has {lo} chain(s) of registered handlers with holding match expressions to {esc T}, but only {k} cop(ies) arrived")
       if k > hi then
@@ -88,6 +112,10 @@ def judgeFinal (b : Book) (ord : List String) (n T : String) (obs : List SEv) : 
       else
         for ch in chains do
           streams := addStream streams ch.2.1 c.ev.time
+    if gated then
+      if !prevOKb obs.reverse then
+        throw ("prev-follows-arrival-order", s!"gated recorder {esc n} topic {esc T}: an event does not carry the level of the preceding event with its id in the recorder's own order")
+      return out
     if exact then
       if !mergeOK (obs.map (·.time)) (streams.map (·.2)) then
         throw ("per-chain-fifo", s!"recorder {esc n} topic {esc T}: the log is not an order-preserving merge of the {streams.length} per-chain stream(s) of the history")
@@ -96,7 +124,7 @@ def judgeFinal (b : Book) (ord : List String) (n T : String) (obs : List SEv) : 
     if !prevOKb obs.reverse then
       throw ("prev-follows-arrival-order", s!"recorder {esc n} topic {esc T}: an event does not carry the level of the preceding event with its id in the recorder's own order")
     for f in b.finals do
-      if f.2.1 == T && f.1 != n && (b.regs.any (fun r => r.1 == T && r.2.1 == f.1)) then
+      if f.2.1 == T && f.1 != n && !b.gates.contains (T, f.1) && (b.regs.any (fun r => r.1 == T && r.2.1 == f.1)) then
         if !(isSuffixOf obs f.2.2 || isSuffixOf f.2.2 obs) then
           throw ("one-arrival-order-per-topic", s!"recorders {esc n} and {esc f.1} of topic {esc T} saw different arrival orders")
     return out
@@ -133,9 +161,29 @@ def selfTests : List (String × List SEv × String) :=
     ("broken-prev", [ev 1 1 0, ev 3 2 1, ev 3 2 1, ev 2 3 3, ev 2 3 2], "prev-follows-arrival-order"),
     ("never-collected", [ev 1 1 0, ev 3 2 1, ev 3 2 3, ev 2 3 3, ev 2 3 2, ev 1 9 2], "delivered-only-what-was-collected") ]
 
+/-- overflow self-test: t0 → (p0, p1), a gated recorder `g` on p0 with capacity 1 (so it gets 2 of 3 events), a plain
+recorder `r` on p1 must get all three whatever happened on p0 -/
+def gateBook : Book :=
+  let specs : List Spec := [ { topic := "t0", hid := "h0", midx := 0, targets := ["p0", "p1"] } ]
+  let b : Book := { cap := some 1, gates := [("p0", "g")] }
+  let b := (b.recorder "p0" "g").recorder "p1" "r"
+  let b := b.collect "t0" { id := "a", level := 1, time := 1, prev := 0, tags := [] } specs
+  let b := b.collect "t0" { id := "a", level := 3, time := 2, prev := 0, tags := [] } specs
+  b.collect "t0" { id := "a", level := 2, time := 3, prev := 0, tags := [] } specs
+
+def gateTests : List (String × String × String × List SEv × String) :=
+  [ ("gate-honest", "g", "p0", [ev 1 1 0, ev 3 2 1], "ok"),
+    ("gate-got-too-few", "g", "p0", [ev 1 1 0], "handler-gets-all-but-own-overflow"),
+    ("gate-got-the-overflow", "g", "p0", [ev 1 1 0, ev 3 2 1, ev 2 3 3], "handler-gets-all-but-own-overflow"),
+    ("other-target-honest", "r", "p1", [ev 1 1 0, ev 3 2 1, ev 2 3 3], "ok"),
+    ("other-target-starved-by-the-overflow", "r", "p1", [ev 1 1 0, ev 3 2 1], "no-loss-per-chain") ]
+
 def selfTestFailures : List String :=
   selfTests.filterMap (fun t =>
     let got := clauseOf (judgeFinal diamondBook harnessOrder "r" "p2" t.2.1)
-    if got == t.2.2 then none else some s!"{t.1}: expected {t.2.2}, got {got}")
+    if got == t.2.2 then none else some s!"{t.1}: expected {t.2.2}, got {got}") ++
+  gateTests.filterMap (fun t =>
+    let got := clauseOf (judgeFinal gateBook harnessOrder t.2.1 t.2.2.1 t.2.2.2.1)
+    if got == t.2.2.2.2 then none else some s!"{t.1}: expected {t.2.2.2.2}, got {got}")
 
 end Kap.C09.AsyncDrv
